@@ -5,7 +5,8 @@ open Util
 let kind_of_string s =
   match s with
   | "slice" -> KSlice | "cursor_slice" -> KCursorSlice | "cursor_array" -> KCursorArray
-  | "cursor_box" -> KCursorBox | "vec" -> KVec | "io_vec" -> KIoVec | _ -> failwith "kind"
+  | "cursor_box" -> KCursorBox | "vec" -> KVec | "io_vec" -> KIoVec | "io_slice" -> KIoSlice | "io_trickle" -> KIoTrickle
+  | _ -> failwith "kind"
 
 let show_sink ((ok, s) : bool * sink) : string =
   Printf.sprintf "%s;written=%s;pos=%s" (if ok then "ok" else "err") (hex_or_dash s.s_written) (string_of_n s.s_pos)
